@@ -191,16 +191,24 @@ impl DiskLock {
 #[verifier::external_body]
 pub struct FormatAny { _p: () }
 impl FormatAny {
+    // bytes of an extent head other than key and value: 22 (v1) or 30 (v2/v3)
+    pub uninterp spec fn fixed(&self) -> nat;
+
     #[verifier::external_body]
     pub fn parse_record(&self, data: &[u8]) -> Option<(Vec<u8>, usize, u64, u64)> { unimplemented!() }
 
     #[verifier::external_body]
     pub fn total_size(&self, key_len: usize, value_len: usize) -> (r: usize)
         requires key_len <= 0x10_0000, value_len <= 0x1000_0000,
-        ensures r == 22 + key_len + value_len || r == 30 + key_len + value_len,
+        ensures r == self.fixed() + key_len + value_len, self.fixed() == 22 || self.fixed() == 30,
     {
         unimplemented!()
     }
+}
+
+// documented extent length of a record: total size rounded up to whole blocks
+pub open spec fn blocks_of(format: &FormatAny, key_len: int, value_len: int) -> int {
+    (format.fixed() + key_len + value_len + 4095) / 4096
 }
 
 #[verifier::external_body]
